@@ -580,8 +580,10 @@ def do_edit(rec, rng, obj, level, w):
             rec.hit("readback")
             # every nuclide stays present in the leaves that held it, at the trace level
             for c, _s in leaves(obj):
+                vf_ = c.getVolumeFraction() if c.parent is not None and len(c.parent) else 1.0
                 for n, v in c.p.numberDensities.items():
-                    if not (0 < v <= units.TRACE_NUMBER_DENSITY * 1.0000001 / max(c.getVolumeFraction() if c.parent is not None and len(c.parent) else 1.0, 1e-12) * 1e6):
+                    # a child with negative volume (overlapped gap) legitimately holds densities of either sign: only their size is judged
+                    if not ((0 < v or (vf_ < 0 and v != 0)) and abs(v) <= units.TRACE_NUMBER_DENSITY * 1.0000001 / max(abs(vf_), 1e-12) * 1e6):
                         rec.violation("clearNumberDensities/not-trace/%s" % level, "after clear N(%s)=%r in %s" % (n, v, c.name), w)
                         return op
             if set(after) != set(before):
